@@ -14,7 +14,7 @@ or an explicit `switch` on the value (`pre_thread`, `pre_affinity`, `pre_cpu`,
 "Recognised" = the handler does not fail with its *unknown event / category /
 value* error.  Whether the event is then legal (payload size, thread and
 subsystem state, task life-cycle) is the business of other properties; here the
-context is permissive (`guard` holds and the payload has the declared shape).
+context is permissive (`stateGuard` holds and the payload has the declared shape).
 
 The `switch` statements are represented as data (`Disp`) so that one lemma
 ("a dispatcher accepts exactly its keys") serves the eight models.
@@ -145,8 +145,8 @@ structure Ctx where
   running : Bool     -- thread->is_running
   outOfCpu : Bool    -- thread->is_out_of_cpu (between KCO and KCI)
 
-/-- The guard each handler evaluates before dispatching. -/
-def guard : ModelId → Ctx → Bool
+/-- The thread-state guard each handler evaluates before dispatching. -/
+def stateGuard : ModelId → Ctx → Bool
   | .ovni, x => !x.outOfCpu
   | .nanos6, x => x.active
   | .nosv, x => x.active && !x.outOfCpu
@@ -157,7 +157,7 @@ def guard : ModelId → Ctx → Bool
 def permissive : Ctx := { active := true, running := true, outOfCpu := false }
 
 /-- the whole verdict of the dispatch part in a context -/
-def handledIn (x : Ctx) (M : ModelId) (m c v : Nat) : Bool := guard M x && handled M m c v
+def handledIn (x : Ctx) (M : ModelId) (m c v : Nat) : Bool := stateGuard M x && handled M m c v
 
 /-! ### The declared catalogue -/
 
